@@ -95,17 +95,21 @@ def identifier_from_u16(ctx):
         return
     v = FnView.get(P, f)
     refusal(ctx, f, "SEP", "zero-refused", [("n==0", cmp_fact("eq", arg(1), const(0), True))], {b for (b, k, _) in ret_writes(f) if k in ("ok", "call")})
+    from ..paths import iteration_cases, Unbounded
+    from .. import algebra
+    from ..algebra import Alg, Unanalysable
     tails = [v.cx.call(t, (f.key, b)) for (b, k, t) in ret_writes(f) if k == "call"]
-    acc = tails[0][2][0][1][1] if len(tails) == 1 and is_call(tails[0], name="new") and tails[0][2] and tails[0][2][0][0] == "phi" \
-        and tails[0][2][0][1][0] == f.key else None
-    names = {"sum": acc}
-    lr = loop_report(P, f)
-    good = len(lr) == 1 and acc is not None
+    good = len(tails) == 1 and is_call(tails[0], name="new") and len(tails[0][2]) == 1
     det = ""
+    it = None
     if good:
-        lp = lr[0]
-        it = lp["iter_term"]
-        sv = seq_view(it) if it else None
+        try:
+            it = iteration_cases(P, f, v, tails[0][2][0])
+        except Unbounded as e:
+            det = str(e)
+        good = it is not None
+    if good:
+        sv = seq_view(it["source"])
         rng = sv["base"] if sv and sv["reversed"] and not sv["drop_front"] and not sv["drop_back"] else None
         good = (rng is not None and rng[0] == "agg" and (rng[2] or "").endswith("ops::range::Range") and int_lin(dict(rng[4]).get("start"), "u16") == (0, {}))
         if good:
@@ -114,28 +118,33 @@ def identifier_from_u16(ctx):
             good = c == 15 and len(atoms) == 1 and list(atoms.values()) == [-1] and is_call(list(atoms)[0], name="leading_zeros") \
                 and list(atoms)[0][2][0] == ("arg", 1)
             det = fmt(end)[:160]
-        # updates: doubling on every iteration, increment only when bit i of n is set
-        item = lambda t: t[0] == "some" and is_call(t[1], name="next")
-        bit = lambda fa: bit_test(fa, ("arg", 1), item)
-        d = defs_by_arm(f, v, names["sum"], bit, stop=frozenset({lp["header"]}))
-        lv = lambda t: t[0] == "loopvar" and t[2] == names["sum"]
-        dbl = [t for t in d[None] if is_call(t, name="add") and lv(t[2][0]) and lv(t[2][1])]
-        inc = [t for t in d["pass"] if is_call(t, name="add") and ((lv(t[2][0]) and is_call(t[2][1], name="one")) or (lv(t[2][1]) and is_call(t[2][0], name="one")))]
-        init = [t for t in d[None] if is_call(t, name="one")]
-        good = good and len(dbl) == 1 and len(inc) == 1 and len(init) == 1 and not d["fail"] and len(d[None]) == 2 and len(d["pass"]) == 1
-        # whenever bit i is set the increment is executed (no further condition on the way)
-        pass_targets = [e[1] for (e, fa) in v.facts if bit(fa) == "pass"]
-        dbl_blocks = {dd[1] for dd in f.defs().get(names["sum"], []) if dd[0] in ("assign", "call") and dd[1] in lp["body"]}
-        # blocks that perform the increment = sum-writes reachable only from the bit-set edge
-        fail_reach = set().union(*[f.reach(e[1], stop=frozenset({lp["header"]})) for (e, fa) in v.facts if bit(fa) == "fail"]) if pass_targets else set()
-        inc_blocks = {b for b in dbl_blocks if b not in fail_reach}
-        _, back = body_reach(f, lp, pass_targets, removed_blocks=inc_blocks)
-        good = good and bool(pass_targets) and bool(inc_blocks) and not back
+        # every iteration doubles; the increment happens exactly when bit i of n is set; start from one
+        al = Alg([(lambda t: t == ACC, ("scal", "v"))])
+        sym, pa = algebra.sym, algebra.padd
+        two_v = pa(sym("v"), sym("v"))
+        try:
+            seen = set()
+            for c in it["cases"]:
+                b_ = {bit_test(fa, ("arg", 1), lambda t: t == ITEM) for fa in c["facts"]} - {None}
+                val = al.val(c["value"])[1]
+                if b_ == {"pass"}:
+                    good = good and val == pa(two_v, algebra.P(1))
+                elif b_ == {"fail"}:
+                    good = good and val == two_v
+                else:
+                    good = False
+                seen |= b_
+            good = good and seen == {"pass", "fail"} and len(it["init"]) == 1 and al.val(it["init"][0])[1] == algebra.P(1) \
+                and not it["early_exit"]
+        except Unanalysable as e:
+            good = False
+            det += " " + str(e)
     ctx.check(good, "AGREE", key, "double-and-add-over-all-bits-of-n",
               "Identifier::try_from(u16) is not the double-and-add over every bit of n below its leading one (most "
               "significant first): identifiers would not be the RFC's integers as scalars for some n (%s)" % det, f.loc)
     inv = {k: n for k, n in adaptor_inventory(f).items() if k not in LOOKUPS}
     ctx.check(inv == {"rev": 1}, "RED", key, "adaptors", "adaptors %s, reviewed {rev: 1}" % inv, f.loc)
+
 
 
 def run(ctx):
@@ -199,19 +208,13 @@ def run(ctx):
     # 3. commitment list encoding
     f = ctx.anchor(CORE + "round1::encode_group_commitments")
     if f:
-        v = FnView.get(P, f)
-        oks = ok_values(f, v)
-        good = len(oks) == 1
-        if good:
-            parts = flatten(oks[0])
-            item = next_item(arg(1))
-            e = lambda which: (lambda x: x[0] == "ok" and is_call(x[1], name="serialize") and
-                               mentions(x[1][2][0], lambda s: is_field(s, "SigningCommitments", which) and tfield(item, 1)(s[1])))
-            idp = lambda x: is_call(x, name="serialize") and mentions(x[2][0], tfield(item, 0))
-            good = len(parts) == 3 and idp(parts[0]) and e("hiding")(parts[1]) and e("binding")(parts[2])
+        _, pv = commitment_entry_parts(P)
+        parts = pv["parts"] if pv else []
+        good = bool(pv) and pv["source"] == ("arg", 1) and len(parts) == 3 and entry_part("identifier")(parts[0]) and \
+            entry_part("hiding")(parts[1]) and entry_part("binding")(parts[2])
         ctx.check(good, "SEQ", f.key, "id||hiding||binding-per-entry",
                   "RFC 9591 §4.3: each entry encodes as SerializeScalar(identifier) || SerializeElement(hiding) || "
-                  "SerializeElement(binding); found %s" % [fmt(p)[:60] for p in (flatten(oks[0]) if oks else [])], f.loc)
+                  "SerializeElement(binding), for every entry of the map in order; found %s" % [fmt(p)[:60] for p in parts], f.loc)
     # ordered container + identifier order
     sp = P.adts.get(CORE + "SigningPackage")
     ty = [x["ty"] for x in sp["variants"][0]["fields"] if x["name"] == "signing_commitments"][0] if sp else ""
